@@ -10,7 +10,7 @@ import sys, os, json, subprocess, shutil
 
 VERIF = os.path.dirname(os.path.dirname(os.path.abspath(__file__)))
 ALL = ["C%02d" % i for i in range(1, 20)]
-SCR = "/root/scratch/refeval"
+SCR = os.environ.get("REFEVAL_SCR", "/root/scratch/refeval")      # (several instances may run side by side)
 
 
 def sh(cmd, cwd=None, timeout=3000, env=None):
